@@ -749,6 +749,128 @@ func init() {
 			}
 			def("openOutputCalls", c02Events(fd, nil))
 		}
+		{
+			// round 13: the iterator a scan of a cached table reader starts with (kv/table/reader.go)
+			rd, err := parse("kv/table/reader.go")
+			if err != nil {
+				return "", err
+			}
+			itf, err := need(rd, "storeMMapReader", "Iterator")
+			if err != nil {
+				return "", err
+			}
+			itStmts := c02Stmts(itf)
+			fmt.Fprintf(&sb, "\n/-- storeMMapReader.Iterator(): its statements -/\n")
+			def("readerIteratorStmts", itStmts)
+			lit := false
+			if nf := FindFunc(rd, "", "newMMapIterator"); nf != nil && nf.Body != nil && len(nf.Body.List) == 1 {
+				if r, ok := nf.Body.List[0].(*ast.ReturnStmt); ok && len(r.Results) == 1 {
+					if u, ok := r.Results[0].(*ast.UnaryExpr); ok {
+						if cl, ok := u.X.(*ast.CompositeLit); ok && c02Text(cl.Type) == "storeMMapIterator" {
+							lit = true
+						}
+					}
+				}
+			}
+			fmt.Fprintf(&sb, "/-- newMMapIterator is `return &storeMMapIterator{..}` (a new object per call) -/\n")
+			fmt.Fprintf(&sb, "def newMMapIteratorReturnsLiteral : Bool := %v\n", lit)
+			// fields of storeMMapReader that could keep an iterator between calls
+			var itFields []string
+			ast.Inspect(rd, func(n ast.Node) bool {
+				ts, ok := n.(*ast.TypeSpec)
+				if !ok || ts.Name.Name != "storeMMapReader" {
+					return true
+				}
+				if stt, ok := ts.Type.(*ast.StructType); ok {
+					for _, f := range stt.Fields.List {
+						ty := c02Text(f.Type)
+						if strings.Contains(ty, "Iterator") || strings.Contains(ty, "IntIterable") {
+							for _, nm := range f.Names {
+								itFields = append(itFields, nm.Name+":"+ty)
+							}
+						}
+					}
+				}
+				return false
+			})
+			fmt.Fprintf(&sb, "/-- fields of storeMMapReader of an iterator type -/\n")
+			def("readerIteratorFields", itFields)
+			fresh := lit && len(itFields) == 0 && len(itStmts) == 1 && itStmts[0] == "return:newMMapIterator"
+			fmt.Fprintf(&sb, "/-- does every Iterator() call on a (cached, shared) table reader build a new iterator object? -/\n")
+			fmt.Fprintf(&sb, "def iteratorFreshPerCall : Bool := %v\n", fresh)
+			// what the three methods of storeMMapIterator move: calls on it.* and ++/-- statements, in order
+			moves := func(name string) ([]string, error) {
+				fd, err := need(rd, "storeMMapIterator", name)
+				if err != nil {
+					return nil, err
+				}
+				var out []string
+				ast.Inspect(fd.Body, func(n ast.Node) bool {
+					switch x := n.(type) {
+					case *ast.CallExpr:
+						if nm := c02Text(x.Fun); strings.HasPrefix(nm, "it.") {
+							out = append(out, nm)
+						}
+					case *ast.IncDecStmt:
+						out = append(out, c02Text(x.X)+x.Tok.String())
+					case *ast.AssignStmt:
+						for _, l := range x.Lhs {
+							if t := c02Text(l); strings.HasPrefix(t, "it.") {
+								out = append(out, t+"=")
+							}
+						}
+					}
+					return true
+				})
+				return out, nil
+			}
+			// who starts scans in package kv: every `.Iterator()` call of the non-test, non-hook files, "<file>:<func>"
+			kvEnts, err := os.ReadDir(filepath.Join(repo, "kv"))
+			if err != nil {
+				return "", err
+			}
+			var scanSites []string
+			for _, e := range kvEnts {
+				name := e.Name()
+				if e.IsDir() || !strings.HasSuffix(name, ".go") || strings.HasSuffix(name, "_test.go") ||
+					strings.HasSuffix(name, "_mock.go") || strings.HasPrefix(name, "zz_verif") {
+					continue
+				}
+				f, err := parse("kv/" + name)
+				if err != nil {
+					return "", err
+				}
+				for _, d := range f.Decls {
+					fd, ok := d.(*ast.FuncDecl)
+					if !ok || fd.Body == nil {
+						continue
+					}
+					ast.Inspect(fd.Body, func(n ast.Node) bool {
+						if c, ok := n.(*ast.CallExpr); ok {
+							if sel, ok := c.Fun.(*ast.SelectorExpr); ok && sel.Sel.Name == "Iterator" && len(c.Args) == 0 {
+								scanSites = append(scanSites, name+":"+fd.Name.Name+":"+c02Text(sel.X))
+							}
+						}
+						return true
+					})
+				}
+			}
+			fmt.Fprintf(&sb, "/-- every `.Iterator()` call in package kv (non-test): \"<file>:<func>:<receiver>\" -/\n")
+			def("kvScanSites", scanSites)
+			mi, err := need(cj, "compactJob", "makeInputIterator")
+			if err != nil {
+				return "", err
+			}
+			fmt.Fprintf(&sb, "/-- compactJob.makeInputIterator: its calls in order -/\n")
+			def("makeInputIteratorCalls", c02Events(mi, c02Keep("snapshot.GetReader", "reader.Iterator", "table.NewMergedIterator")))
+			for _, m := range [][2]string{{"HasNext", "iteratorHasNextMoves"}, {"Key", "iteratorKeyMoves"}, {"Value", "iteratorValueMoves"}} {
+				mv, err := moves(m[0])
+				if err != nil {
+					return "", err
+				}
+				def(m[1], mv)
+			}
+		}
 		fmt.Fprintf(&sb, "\n/-- does `removeVersion` re-check `ref == 0` under the family lock before deleting? -/\n")
 		fmt.Fprintf(&sb, "def removeVersionRechecksRef : Bool := %v\n", c02RemoveRechecks(removeSteps))
 		return sb.String(), nil
